@@ -426,6 +426,8 @@ OP_NAMES = {ast.Add: "+", ast.Sub: "-", ast.Mult: "*", ast.Div: "/", ast.Pow: "*
 
 
 class TermDomain(Domain):
+    labels_as_attrs = False
+
     def __init__(self, identity_funcs=(), identity_methods=()):
         self.idf = IDENTITY_FUNCS | set(identity_funcs)
         self.idm = IDENTITY_METHODS | set(identity_methods)
@@ -576,6 +578,9 @@ class TermDomain(Domain):
     def subscript(self, recv, index, node):
         if isinstance(index, (int, str)) and not isinstance(index, bool):
             index = ("c", index)
+        if self.labels_as_attrs and isinstance(index, tuple) and len(index) == 2 and index[0] == "c" and isinstance(index[1], str) \
+                and index[1].isidentifier():
+            return ("attr", recv, index[1])             # a label read: obj['k_1'] is obj.k_1
         if index is None:
             index = ("slice", ast.unparse(node.slice) if isinstance(node, ast.Subscript) else "?")
         return ("at", recv, index)
